@@ -8,6 +8,9 @@ Script (see coq/Gate/Model.v `run`, harness/src/bin/gates.rs):
      | 6 g t d  at time t the owner of gate g calls send_at(msg, g, t+d)
      | 7 g g' d forwarding rule: the module receiving a message through gate g sends THE RECEIVED object on g' after d ns
      | 8 g t d b  as 6, the message may be relayed min(b,8) times
+     | 10 c m sz  at sim start module c calls m.spawner().gate(name, sz): sz new gates (next ids) owned by module m
+     | 11 c a b l br  at sim start module c calls a.connect(b, channel)
+Build-time operations (1-5, 9) run first, in order, then the run-time ones (6-8, 10, 11); records come out in that order.
 """
 import itertools
 
@@ -17,10 +20,10 @@ COQ_MODULE = "Gate.Model"; RUN_FN = "run"
 THEOREMS = ["C08_invariant_reachable", "C08_sym", "C08_fill_order", "C08_degree_le_2", "C08_slots_monotone", "C08_third_peer_rejected",
             "C08_connect_symmetric", "C08_connect_idempotent", "C08_walk_from_endpoint_terminates",
             "C08_mirror", "C08_delivered_once_to_far_owner", "C08_both_directions", "C08_relay_header_per_leg",
-            "C08_script_deliveries"]
+            "C08_script_deliveries", "C08_path_delay_sum", "C08_spawned_gates_owner"]
 QUICK_N = 6000; THOROUGH_N = 150000
 CLAIM = dict(
-    text="Machine-checked (Coq 8.16, axiom-free) for EVERY gate declaration and EVERY sequence of connect calls (any order, orientation, channels, duplicates, rejected calls) on a function-by-function model of gate.rs connect/next_hop/PathIter, events.rs handle_with_sink and ctx.rs buf_send_at: the slot tables stay symmetric (g.slot i = (h,j) implies h.slot j = (g,i), same channel), slot 1 is used only after slot 0, a gate has at most two distinct peers, established connections are never overwritten and a third peer is rejected in either orientation; a.connect(b) and b.connect(a) yield the same table and a repeated connect is a no-op; the walk from any non-transit gate terminates within fuel 2*|gates|+1 (injective step + no predecessor of the start state, pigeonhole); path_iter from the far end is the exact mirror image (gates and channels reversed); a message sent on a non-transit gate yields exactly one delivery, to the owner of the far-end gate, at send time + sum over the hops of (transmission time of the message at the hop's bitrate + latency), with header sender/receiver/last_gate as specified (for ANY header the message object carried before: the sender is the module that performed this send), and the same total delay in the opposite direction; for a relayed message object (echoed back or forwarded onto another chain by the receiving module, up to a hop budget) every leg's header names that leg's sender and receiver. The model is tied to the des crate by differential runs (extracted model vs real Sim/Gate/Channel/send_at on generated scripts: chains of 1..12 hops over 1..6 modules and clusters, all permutations x orientations for <= 5 hops in the thorough tier, hops with latency and/or bitrate, immediate/delayed sends, both directions also simultaneously, forwarding rules that re-send the received Message object) plus an independent monitor that states C08 on the implementation's output alone.",
+    text="Machine-checked (Coq 8.16, axiom-free) for EVERY gate declaration and EVERY sequence of connect calls (any order, orientation, channels, duplicates, rejected calls) on a function-by-function model of gate.rs connect/next_hop/PathIter, events.rs handle_with_sink and ctx.rs buf_send_at: the slot tables stay symmetric (g.slot i = (h,j) implies h.slot j = (g,i), same channel), slot 1 is used only after slot 0, a gate has at most two distinct peers, established connections are never overwritten and a third peer is rejected in either orientation; a.connect(b) and b.connect(a) yield the same table and a repeated connect is a no-op; the walk from any non-transit gate terminates within fuel 2*|gates|+1 (injective step + no predecessor of the start state, pigeonhole); path_iter from the far end is the exact mirror image (gates and channels reversed); a message sent on a non-transit gate yields exactly one delivery, to the owner of the far-end gate, at send time + sum over the hops of (transmission time of the message at the hop's bitrate + latency), with header sender/receiver/last_gate as specified (for ANY header the message object carried before: the sender is the module that performed this send), and the same total delay in the opposite direction; gates created at run time through Spawner::gate belong to the module whose spawner was used, whoever executed the call and whatever runs afterwards, and all statements cover them; for a relayed message object (echoed back or forwarded onto another chain by the receiving module, up to a hop budget) every leg's header names that leg's sender and receiver. The model is tied to the des crate by differential runs (extracted model vs real Sim/Gate/Channel/send_at on generated scripts: chains of 1..12 hops over 1..6 modules and clusters, all permutations x orientations for <= 5 hops in the thorough tier, hops with latency and/or bitrate, immediate/delayed sends, both directions also simultaneously, forwarding rules that re-send the received Message object, gates created and connected at run time inside at_sim_start through Spawner::gate by the module itself / its parent / a third module) plus an independent monitor that states C08 on the implementation's output alone.",
     note="Trusted: Coq kernel; extraction (ExtrOcamlBasic only) cross-checked in-Coq by vm_compute on a sample each run; harness/generator quality bounds the tie to the code. Channels have jitter 0 and bitrates whose transmission time for the 72-byte message is a whole number of ns; the per-hop delay is that of an idle channel: each direction of a hop has its own Channel instance (checked: simultaneous opposite-direction traffic), and the statement covers runs where the traffic of one direction of a hop does not overlap in time (a message meeting a busy channel is C07's subject); inactive owners are C09. Observed and modelled, outside the property text: the full-gate assert of connect fires while both gate mutexes are held, so a caught third-peer panic poisons both gates (every later kind/path_iter/connect on them panics, and connect(x, poisoned) poisons x as well).",
     technique="Coq invariant proof over all connect sequences (Sym/Fill/NoSelf/Distinct), NoDup pigeonhole termination, path reversal lemma + differential correspondence check",
     design="6/C08")
@@ -30,7 +33,9 @@ RULE = ("scripts declare 1..6 modules and gate groups (single gates and clusters
         " kind/next_gate/path_end/path_iter are queried between and after the connects, messages are sent from both ends of"
         " every chain (from at_sim_start, immediately and delayed); in ~30 % of the scripts modules carry forwarding rules"
         " (the received Message object is echoed back or forwarded onto another chain, immediately or delayed, up to a hop"
-        " budget) and every leg's header is checked; in ~30 % of the scripts hops have a bitrate (idle-hop delay = tx(72 bytes)"
+        " budget) and every leg's header is checked; ~20 % of the scripts create gates at run time"
+        " through Spawner::gate (by the module itself, by a parent on its child, through a held ModuleRef) and connect them"
+        " inside at_sim_start; in ~30 % of the scripts hops have a bitrate (idle-hop delay = tx(72 bytes)"
         " + latency, tx an exact number of ns, latency 0 included) with simultaneous sends from both ends and the traffic of"
         " one direction spaced so that no message meets a busy channel; non-trivial = distinct script that hits at least three"
         " targeted mechanisms and delivers a message over, or enumerates, a path of at least two hops")
@@ -74,7 +79,7 @@ def split(script):
     hdr = script[:2 + L]
     ops, i = [], 2 + L
     while i < len(script):
-        k = {1: 4, 2: 2, 3: 2, 4: 2, 5: 2, 6: 4, 7: 4, 8: 5, 9: 5}.get(script[i])
+        k = {1: 4, 2: 2, 3: 2, 4: 2, 5: 2, 6: 4, 7: 4, 8: 5, 9: 5, 10: 4, 11: 6}.get(script[i])
         if k is None or i + k > len(script):
             break
         ops.append(script[i:i + k]); i += k
@@ -97,6 +102,30 @@ def owners_of(hdr):
     for j in range(0, len(grp) - 1, 2):
         own += [grp[j] % nm] * max(1, min(6, grp[j + 1]))
     return own
+
+
+def nmod_of(hdr):
+    return max(1, min(8, hdr[0])) if hdr else 1
+
+
+def phased(hdr, ops):
+    """operations in execution order (build time first), run-time connects rewritten to the connect form
+    [9 a b l br] with the executing module appended, spawns as [10, caller, target, size]"""
+    nm = nmod_of(hdr)
+    p1 = [o for o in ops if o[0] in (1, 2, 3, 4, 5, 9)]
+    p2 = []
+    for o in ops:
+        if o[0] in (6, 7, 8):
+            p2.append(o)
+        elif o[0] == 10:
+            p2.append([10, o[1] % nm, o[2] % nm, max(1, min(6, o[3]))])
+        elif o[0] == 11:
+            p2.append([9, o[2], o[3], o[4], o[5], o[1] % nm])
+    return p1 + p2
+
+
+def final_count(hdr, ops):
+    return len(owners_of(hdr)) + sum(max(1, min(6, o[3])) for o in ops if o[0] == 10)
 
 
 def clusters_of(hdr):
@@ -126,6 +155,12 @@ def pretty(script):
             parts.append("send(g%d,at=%d,delay=%d,relays<=%d)" % (o[1], o[2], o[3], min(o[4], 8)))
         elif o[0] == 7:
             parts.append("relay(via g%d -> resend on g%d after %d)" % (o[1], o[2], o[3]))
+        elif o[0] == 10:
+            parts.append("at start m%d: m%d.spawner().gate(size=%d)" % (o[1] % nmod_of(hdr), o[2] % nmod_of(hdr), max(1, min(6, o[3]))))
+        elif o[0] == 11:
+            br = norm_br(o[5])
+            parts.append("at start m%d: g%d.connect(g%d%s)" % (o[1] % nmod_of(hdr), o[2], o[3], "" if o[4] == 0 else ",lat=%dns%s" % (
+                o[4] - 1, ",bitrate=%d(tx=%dns)" % (br, tx_ns(br)) if br else "")))
         else:
             parts.append("%s(g%d)" % ({2: "kind", 3: "next_gate", 4: "path_end", 5: "path_iter"}[o[0]], o[1]))
     return s + "; ".join(parts)
@@ -137,6 +172,9 @@ class Graph:
     an edge carries the channel of the connect call that created it.  No slots."""
     def __init__(self, n):
         self.adj = [[] for _ in range(n)]   # list of (peer, channel); channel = None | (latency, bitrate)
+
+    def grow(self, k):
+        self.adj += [[] for _ in range(k)]
 
     def peers(self, g):
         return [p for p, _ in self.adj[g]]
@@ -175,7 +213,7 @@ def records(script, out):
     """Align the per-operation records, return (list of (op, rec), tail)."""
     hdr, ops = split(script)
     i, recs = 0, []
-    for o in ops:
+    for o in phased(hdr, ops):
         if i >= len(out):
             raise ValueError("output too short")
         tag = out[i]
@@ -189,7 +227,7 @@ def records(script, out):
                     raise ValueError("truncated path_iter record")
                 ln = 3 + 3 * out[i + 2]
         else:
-            ln = {1: 1, 2: 2, 3: 2, 4: 2, 6: 1, 7: 1, 8: 1, 9: 2, 14: 1}.get(tag)
+            ln = {1: 1, 2: 2, 3: 2, 4: 2, 6: 1, 7: 1, 8: 1, 9: 2, 14: 1, 16: 1}.get(tag)
         if ln is None or i + ln > len(out):
             raise ValueError("bad record tag %s at %d" % (tag, i))
         recs.append((o, out[i:i + ln])); i += ln
@@ -270,22 +308,25 @@ def opposite_overlap(occ):
 
 
 def final_graph(script):
-    """the abstract gate graph / rules / sends a script builds (connect: reject self, duplicate, third peer)"""
+    """the abstract gate graph / owners / rules / sends a script builds (connect: reject self, duplicate, third
+    peer; a spawned gate belongs to the module whose spawner was used, whoever executed the call)"""
     hdr, ops = split(script)
     own = owners_of(hdr); n = len(own)
+    nfin = final_count(hdr, ops)
     G, rules, sends = Graph(n), {}, []
-    for o in ops:
-        gs = [o[1], o[2]] if o[0] in (1, 7, 9) else [o[1]]
-        if any(g >= n for g in gs):
-            continue
-        if o[0] in (1, 9):
+    for o in phased(hdr, ops):
+        if o[0] == 10:
+            own += [o[2]] * o[3]; G.grow(o[3]); n += o[3]
+        elif o[0] in (1, 9):
             a, b = o[1], o[2]
-            if a != b and b not in G.peers(a) and G.deg(a) < 2 and G.deg(b) < 2:
+            if a < n and b < n and a != b and b not in G.peers(a) and G.deg(a) < 2 and G.deg(b) < 2:
                 G.add(a, b, chan_of(o))
         elif o[0] == 7:
-            rules.setdefault(o[1], (o[2], o[3]))
+            if o[1] < nfin and o[2] < nfin:
+                rules.setdefault(o[1], (o[2], o[3]))
         elif o[0] in (6, 8):
-            sends.append((o[1], o[2], o[3], min(o[4], 8) if o[0] == 8 else 0))
+            if o[1] < nfin:
+                sends.append((o[1], o[2], o[3], min(o[4], 8) if o[0] == 8 else 0))
     return G, own, rules, sends
 
 
@@ -304,19 +345,33 @@ def monitor(script, out):
     iters = {}           # (version, g) -> [gates]
     sends = []
     rules = {}           # arrival gate -> (out gate, delay); first rule wins
+    nfin = final_count(hdr, ops)
     for o, r in recs:
-        gs = [o[1], o[2]] if o[0] in (1, 7, 9) else [o[1]]
+        if o[0] == 10:
+            # m.spawner().gate(..): the new gates belong to module m, whoever executed the call
+            if r != [16]:
+                return "spawner().gate(..) on m%d executed by m%d failed: %s" % (o[2], o[1], r)
+            own += [o[2]] * o[3]; G.grow(o[3]); n += o[3]
+            continue
+        if o[0] == 7:
+            if r != ([14] if o[1] < n and o[2] < n else [7]):
+                return "rule record %s" % r
+            if o[1] < nfin and o[2] < nfin:
+                rules.setdefault(o[1], (o[2], o[3]))
+            continue
+        if o[0] in (6, 8):
+            if r != ([6] if o[1] < n else [7]):
+                return "send record %s" % r
+            if o[1] < nfin:
+                sends.append((o[1], o[2], o[3], min(o[4], 8) if o[0] == 8 else 0))
+            continue
+        gs = [o[1], o[2]] if o[0] in (1, 9) else [o[1]]
         if any(g >= n for g in gs):
             if r != [7]:
                 return "operation on an unknown gate answered %s" % r
             continue
         if r == [8]:
             return "walk ran out of fuel"
-        if o[0] == 7:
-            if r != [14]:
-                return "rule record %s" % r
-            rules.setdefault(o[1], (o[2], o[3]))
-            continue
         if o[0] in (1, 9):
             a, b = o[1], o[2]
             lat = chan_of(o)
@@ -338,11 +393,6 @@ def monitor(script, out):
                 if r != [1]:
                     return "connect(g%d,g%d) between gates with free slots failed: %s" % (a, b, r)
                 G.add(a, b, lat); version += 1
-            continue
-        if o[0] in (6, 8):
-            if r != [6]:
-                return "send record %s" % r
-            sends.append((o[1], o[2], o[3], min(o[4], 8) if o[0] == 8 else 0))
             continue
         g = o[1]
         if r == [9, 4]:
@@ -433,14 +483,24 @@ def mechanisms(script, out):
     poisoned = False
     conn_seq = []
     rules = {}
-    for o in ops:
+    spawned_by = {}
+    for o in phased(hdr, ops):
+        if o[0] == 10:
+            m.add("gate_created_via_spawner")
+            if o[1] != o[2]:
+                m.add("gate_created_by_other_module")
+                m.add("gate_created_by_parent_on_child" if o[2] == o[1] + 4 else "gate_created_through_held_moduleref")
+            for _ in range(o[3]):
+                spawned_by[n] = o[1]; own.append(o[2]); cl.append(o[3] > 1); slots.append([]); n += 1
+            continue
         gs = [o[1], o[2]] if o[0] in (1, 7, 9) else [o[1]]
         if any(g >= n for g in gs):
             m.add("unknown_gate"); continue
         if o[0] == 7:
-            rules.setdefault(o[1], (o[2], o[3])); continue
+            continue
         if o[0] in (1, 9):
             a, b = o[1], o[2]
+            if len(o) == 6: m.add("runtime_connect")
             if a == b:
                 m.add("self_connect")
             elif b in slots[a]:
@@ -468,7 +528,7 @@ def mechanisms(script, out):
             pass
     if poisoned: m.add("poisoned")
     # hop channels with a bitrate: which hops carry traffic, and whether the two directions overlap in time
-    G, _, _, snds = final_graph(script)
+    G, own, rules, snds = final_graph(script)
     if not poisoned:
         occ = traffic(G, own, rules, snds)
         for (x, y), v in occ.items():
@@ -517,6 +577,8 @@ def mechanisms(script, out):
         if nch == 0: m.add("no_channel_path")
         if 0 < nch < k: m.add("mixed_channel_path")
         if own[g] == own[p[-1]]: m.add("same_module_both_ends")
+        if any(x in spawned_by for x in [g] + p): m.add("send_over_spawned_gate")
+        if p[-1] in spawned_by and spawned_by[p[-1]] != own[p[-1]]: m.add("delivered_through_gate_spawned_by_other_module")
         if any(cl[x] for x in [g] + p): m.add("cluster_gate_on_path")
         if len(set(own[x] for x in [g] + p)) >= 3: m.add("path_over_3_modules")
         # slot-0 of a transit gate leads backwards (the walk must leave through slot 1) and vice versa
@@ -569,7 +631,9 @@ def rand_time(rng):
     return rng.choice([1000, 2500000, 10 ** 9, rng.randint(1, 10 ** 10)])
 
 
-def gen_script(rng, malformed=False, relays=False, bitrates=False):
+def gen_script(rng, malformed=False, relays=False, bitrates=False, spawns=False):
+    if spawns:
+        return gen_spawn_script(rng, relays, bitrates)
     nmod = rng.randint(1, 6)
     nchains = rng.choice([1, 1, 1, 2, 2, 3, 4])
     hops = []
@@ -687,6 +751,75 @@ def gen_script(rng, malformed=False, relays=False, bitrates=False):
     return script
 
 
+def gen_spawn_script(rng, relays, bitrates):
+    """RUN-TIME wiring: gates created inside at_sim_start through Spawner::gate - by the module itself, by a parent
+    on its child (current().child(..)) or through a held ModuleRef - connected at run time (some hops at build
+    time), then messages over those chains (both directions, relays)."""
+    nmod = rng.randint(1, 8)
+    grp, n = [], 0
+    for _ in range(rng.randint(0, 3)):                  # a few builder gates
+        sz = 1 if rng.random() < 0.7 else rng.randint(2, 4)
+        grp += [rng.randrange(nmod), sz]; n += sz
+    builder = list(range(n))
+    own = owners_of([nmod, len(grp)] + grp)
+    ops, spawned = [], []
+    for _ in range(rng.randint(1, 5)):
+        target = rng.randrange(nmod)
+        q = rng.random()
+        if q < 0.35:
+            caller = target                              # on itself
+        elif q < 0.7 and target >= 4:
+            caller = target - 4                          # parent wires up its child
+        else:
+            caller = rng.randrange(nmod)                 # any module holding a ModuleRef
+        sz = 1 if rng.random() < 0.6 else rng.randint(2, 4)
+        ops.append([10, caller, target, sz])
+        spawned += list(range(n, n + sz)); own += [target] * sz; n += sz
+    ids = builder + spawned
+    rng.shuffle(ids)
+    chains, pos = [], 0
+    while pos + 1 < len(ids) and len(chains) < 3:
+        k = min(rng.choice([1, 1, 2, 3, 4]), len(ids) - pos - 1)
+        chains.append(ids[pos:pos + k + 1]); pos += k + 1
+    spare = ids[pos:]
+    pre = []
+    conns = []
+    for c in chains:
+        for x, y in zip(c, c[1:]):
+            l = 0 if rng.random() < 0.5 else rand_lat(rng) + 1
+            br = rng.choice(BITRATES) if bitrates and l and rng.random() < 0.6 else 0
+            a, b = (x, y) if rng.random() < 0.5 else (y, x)
+            if x in builder and y in builder and rng.random() < 0.5:
+                pre.append([9, a, b, l, br] if br else [1, a, b, l])          # build-time hop
+            else:
+                conns.append([11, rng.choice([own[x], own[y], rng.randrange(nmod)]), a, b, l, br])
+    rng.shuffle(conns)
+    if conns and rng.random() < 0.15:
+        d = rng.choice(conns); conns.append([11, rng.randrange(nmod), d[3], d[2], 0, 0])   # duplicate, reversed
+    if conns and rng.random() < 0.05:
+        conns.append([11, 0, rng.randrange(n), rng.randrange(n), 0, 0])                   # possibly a third peer
+    ops = pre + ops + conns
+    for c in chains:
+        a, b = c[0], c[-1]
+        for g in (a, b):
+            if g in builder:
+                ops.append([rng.choice([2, 5]), g])      # build-time view: the chain does not exist yet
+        t = rand_time(rng)
+        ops.append([6, a, t, rng.choice([0, 0, 2])]); ops.append([6, b, t, rng.choice([0, 3])])
+        if rng.random() < 0.5:
+            ops.append([6, rng.choice([a, b]), rand_time(rng), rng.choice([0, 5, 1000])])
+        if relays:
+            e = rng.choice([a, b])
+            ops.append([7, e, e if rng.random() < 0.5 else rng.choice([c2[0] for c2 in chains]), rng.choice([0, 1, 1000])])
+            ops.append([8, a if e == b else b, rand_time(rng), 0, rng.randint(1, 3)])
+    for g in spare[:1]:
+        ops.append([6, g, rand_time(rng), 0])
+    if rng.random() < 0.1:
+        ops.append([6, n + 1, 0, 0]); ops.append([11, 0, n, 0, 0, 0])
+    script = join([nmod, len(grp)] + grp, ops)
+    return space_out(script) if bitrates else script
+
+
 def space_out(script):
     """Keep the traffic of ONE direction of every hop non-overlapping in time (no message may meet a busy channel:
     that is C07's subject), while simultaneous sends from the two ends of a chain stay simultaneous."""
@@ -720,7 +853,7 @@ def space_out(script):
             for o in ops:                               # relays make the two directions chase each other: no relays
                 if o[0] == 8: o[4] = 0
         else:
-            ops = [o[:4] if o[0] == 9 else o for o in ops]
+            ops = [o[:4] if o[0] == 9 else o[:5] + [0] if o[0] == 11 else o for o in ops]
             for o in ops:
                 if len(o) == 4 and o[0] == 9: o[0] = 1
     return join(hdr, ops)
@@ -733,7 +866,7 @@ def gen(rng, n):
         if k >= n // 4: break
         yield s; k += 1
     while k < n:
-        yield gen_script(rng, malformed=(rng.random() < 0.15), relays=(rng.random() < 0.3), bitrates=(rng.random() < 0.3)); k += 1
+        yield gen_script(rng, malformed=(rng.random() < 0.15), relays=(rng.random() < 0.3), bitrates=(rng.random() < 0.3), spawns=(rng.random() < 0.2)); k += 1
 
 
 def exhaustive(maxhops=5):
